@@ -1,9 +1,28 @@
 from props._kt import *
+import os
+from lib.core import Verus, VERUS_DIR
+from lib import vx
+from verus import c04_lca as lca
+
+
+def build_lca():
+    text, located, dropped, raws = lca.build()
+    d = os.path.join(VERUS_DIR, 'c04_lca')
+    os.makedirs(d, exist_ok=True)
+    vx.write_diff(raws, os.path.join(d, 'repo_vs_verified.diff'))
+    return text, located, dropped
+
+
+LCA_UNIT = Verus('c04_lca', build_lca, min_verified=25,
+                 contract='lca_pair, last_common_ancestor, Segment::previous (extracted; any graph, any number of heads, any order): lca_pair terminates and returns a command of the graph that is an '
+                          'ancestor-or-self of both arguments, with no Bug exit on a rooted graph; last_common_ancestor returns an ancestor-or-self of every head '
+                          '(the braid drops everything at or below this cut as shared history)')
 
 PROPERTY = 'C04'
 LEVEL = 'proof'
-HARNESS_FILES = ['kani/aranya-runtime/braiding.rs', 'kani/aranya-runtime/command.rs', 'kani/aranya-runtime/client.rs', 'kani/aranya-runtime/mocks.rs']
+HARNESS_FILES = ['verus/c04_lca.py', 'kani/aranya-runtime/braiding.rs', 'kani/aranya-runtime/command.rs', 'kani/aranya-runtime/client.rs', 'kani/aranya-runtime/mocks.rs']
 UNITS = [
+    LCA_UNIT,
     Kani('command::verif_kani::c04_merge_ids_normalised', fns=[Fn('crates/aranya-runtime/src/policy.rs', 'new', r'impl MergeIds')],
          contract='MergeIds::new is order-normalising (smaller id first) and refuses equal ids: collapse and the virtual hello head derive the same merge ids from the same pair', **RT),
     Kani(MC + 'c07_action_trace', fns=[Fn(C, 'action', CI)], covers=2, cap_s=900, stubs=['collapse_heads'],
@@ -14,13 +33,13 @@ UNITS = [
          contract='the N-way LCA the commit-time braid (queries) cuts at is a command of the graph and an ancestor-or-self of every head, for every head order: '
                   'no command between the true LCA and the cut is dropped from the merged fact index', **RT),
 ]
-TRUSTED = KT_TRUSTED
+TRUSTED = KT_TRUSTED + ['c04_lca: the graph axioms of unit c11_is_ancestor plus: merge segments record their LCA as last skip entry; skip entries are proper ancestors of the segment\'s first command; the graph is rooted at the init command (admitted proof fns)']
 ASSUMPTIONS = ['equality of the fact state seen by queries and by actions after the collapse depends on C03 (reference braid) and is NOT decided',
                'synthetic_head vs collapse_heads producing the same address (same fold, same merge ids) is not machine-checked beyond MergeIds normalisation']
 EXPLANATION = 'Two mechanisms: merge-id normalisation (full domain) and "collapse emits no effects" (trace contract of action).'
 MANIFEST = {
     'text': 'Proof of two mechanisms: merge ids are normalised independently of argument order, and the head collapse inside an action reaches the caller sink with no event. '
-            'The N-way LCA used by the commit-time braid is a common ancestor of all heads (bounded shapes). Fact-state equality between the lazy view and the collapsed head in general is not decided.',
+            'The N-way LCA used by the commit-time braid is a common ancestor of all heads (Verus over the graph axioms, unbounded; and on the compiled code for bounded shapes). Fact-state equality between the lazy view and the collapsed head in general is not decided.',
     'note': 'Mechanism contracts only (PROVED-LOCAL).',
-    'technique': 'Kani contract harnesses (full-domain and bounded graph shapes) + trace contract over havoc traits',
+    'technique': 'Verus on the extracted lca_pair / last_common_ancestor + Kani contract harnesses and trace contract over havoc traits',
 }
